@@ -74,10 +74,32 @@ class LowerDimExpr:
 
     def _convert_op(self, name: str, operands: list[ir.Value]) -> ir.Value:
         if name == "floordiv":
+            # ONNX integer Div truncates toward zero while dimension expressions
+            # use floor division.  a - (a mod b) is an exact multiple of b (ONNX
+            # Mod follows the sign of the divisor, like Python), so dividing it
+            # yields floor(a / b) for negative numerators as well.
+            remainder = cast(
+                ir.Value,
+                self.ctx.builder.Mod(
+                    operands[0],
+                    operands[1],
+                    _outputs=[self.ctx.fresh_name("dimexpr_floordiv_rem")],
+                ),
+            )
+            self._set_metadata(remainder)
+            numerator = cast(
+                ir.Value,
+                self.ctx.builder.Sub(
+                    operands[0],
+                    remainder,
+                    _outputs=[self.ctx.fresh_name("dimexpr_floordiv_num")],
+                ),
+            )
+            self._set_metadata(numerator)
             result = cast(
                 ir.Value,
                 self.ctx.builder.Div(
-                    operands[0],
+                    numerator,
                     operands[1],
                     _outputs=[self.ctx.fresh_name("dimexpr_div")],
                 ),
